@@ -179,8 +179,8 @@ PROPS['C16'] = {
     'level_note': 'Trusted: Lean kernel, harness, bincode 1.3 modelled for the Schema family (tied by differential decode); drop-based release observed, not proved',
 }
 PROPS['C01']['scenarios'] = (lambda old: (lambda tier, seed: old(tier, seed) + wire_scen('enc', 1200, 20000)(tier, seed)))(PROPS['C01']['scenarios'])
-PROPS['C01']['modules'] = ['IpcModel.Props.C01', 'IpcModel.Props.C16']
-PROPS['C01']['theorems'] += ['C16.C16_roundtrip', 'Wire.dec_enc']
+PROPS['C01']['modules'] = ['IpcModel.Props.C01', 'IpcModel.Props.C16', 'IpcModel.Props.C01Value']
+PROPS['C01']['theorems'] += ['C16.C16_roundtrip', 'Wire.dec_enc', 'C01.C01_value_end_to_end']
 PROPS['C01']['claimed'] = True
 PROPS['C01']['rule'] += ('; plus seeded (schema, value) pairs (nested options/sequences/tuples/enums/strings/ints, with embedded endpoints) sent through the real '
                          'IpcSender::send: wire bytes compared with the model encoder and the received value with the model decoder')
